@@ -15,12 +15,13 @@
 // (per-goroutine result slots, a WaitGroup, a start barrier).
 //
 // stdout:  SCHEMA <i> types=<n> ops=<n> snapshot=<hash> lines=<n>
-//          DIFF <kind> <op id> <hex sequential> <hex concurrent>
-//          NONDET <kind> <op id>      (the concurrent result differs from the first sequential one but is one of
-//                                      the results the same call gives when simply repeated sequentially: C10's business)
-//          MUTATED <hex path> <hex before> <hex after>
-//          SELFTEST <ok|FAILED …>
-//          DONE histories=<n> calls=<n> maxg=<n> diffs=<n> mutated=<n> nondet=<n> validate=<n> vars=<n> argmap=<n> format=<n>
+//
+//	DIFF <kind> <op id> <hex sequential> <hex concurrent>
+//	NONDET <kind> <op id>      (the concurrent result differs from the first sequential one but is one of
+//	                            the results the same call gives when simply repeated sequentially: C10's business)
+//	MUTATED <hex path> <hex before> <hex after>
+//	SELFTEST <ok|FAILED …>
+//	DONE histories=<n> calls=<n> maxg=<n> diffs=<n> mutated=<n> nondet=<n> validate=<n> vars=<n> argmap=<n> format=<n>
 //
 // `vrace -selfrace` only performs one deliberate unsynchronised write/read pair on a scratch schema, so that the
 // caller can tell a live race detector from a binary built without it.
